@@ -18,7 +18,7 @@ LEVEL_NOTE = "parser receipts are emitted at ~20 sites inside parse_value/parse_
 TECHNIQUE = "AST-shape + language obligations on the real lexer (R), pre/postconditions on the real plumbing functions discharged by z3 (P), bounded injected-rewrite vs receipt multiset comparison (B)"
 EXPLANATION = "C07: R/P obligations on tokenize, parse_with_warnings, WriteTool._map_parse_warnings_to_corrections/_track_corrections; B: multiset of receipts == multiset of injected rewrites on every model document and subset of rewrite sites, zero receipts on canonical text, through both readers and both tools."
 ASSUMPTIONS = ["canonical text contains no alias lexeme outside strings/comments/zones (C03.R2/R3)", "parser receipts are bounded (B)"]
-TRUSTED_BASE = ["verif.reglang", "verif.pyvc", "verif.bounded.model"]
+TRUSTED_BASE = ["verif.reglang", "verif.pyvc", "verif.bounded.model", "z3", "cvc5"]
 LEXER = "octave_mcp.core.lexer"
 
 
